@@ -1,4 +1,5 @@
 import Xp.Model.C05
+import Xp.Model.C05Ready
 /-
 C05 model, production side: how the FunctionComposer (composition_functions.go Compose) turns a
 pipeline's responses into the CompositionResult the reconciler consumes - conditions accumulate
@@ -67,50 +68,227 @@ def fnReconcile (old : St) (r : FnRec) : St × Bool :=
     | some _ => if r.lost then (merged, false) else ({ merged with conds := setCond merged.conds reconcileError }, true)
     | none => if r.lost then (merged, false) else (composeOk merged composed explicit conds, true)
 
+/-! #### Compose failing after the pipeline completed
+
+Every other exit of `FunctionComposer.Compose` returns an EMPTY CompositionResult with the error:
+the conditions the pipeline returned are dropped (unlike a FATAL result, which keeps them), the
+desired XR status is not applied (the status patch is the last call), and the reconciler treats it
+like any Compose error - a conflict requeues without a status write, any other class stores
+Synced=False/ReconcileError and marks every custom condition Unknown. -/
+
+/-- the calls after the pipeline at which the harness makes Compose fail -/
+inductive FnPoint where
+  | refs          -- the server-side apply of spec.resourceRefs
+  | apply         -- the apply of a desired composed resource answered with a NON-invalid error
+  | statusPatch   -- the server-side apply of the desired XR status
+  deriving DecidableEq, Repr
+
+/-- the call is issued at all: a composed resource is applied only when the last step desires one -/
+def FnPoint.fires (p : FnPoint) (last : Option FnStep) : Bool :=
+  match p with
+  | .apply => !((last.map (·.res)).getD []).isEmpty
+  | _ => true
+
+/-- what a Compose error leaves behind: `mem` is the XR as held in memory when Compose returned -/
+def composeFail (old mem : St) (e : EC) (lost : Bool) : St × Bool :=
+  if e == .conflict || lost then (old, false) else (composeError mem [], true)
+
+/-- what a late failure leaves behind. The resource references are applied through a SEPARATE
+object: when that apply changed the XR (`stale`), the XR the reconciler holds carries an outdated
+resourceVersion until the status patch at the very end of Compose reloads it - so after a failing
+apply of a composed resource the reconciler's status update conflicts and nothing is stored. When
+the status patch itself fails, Compose has already replaced the content of the XR it holds by the
+desired XR (FromStruct), which carries no resourceVersion: the API server refuses the status update
+of a custom resource without one. -/
+def fnFaultOutcome (old : St) (p : FnPoint) (e : EC) (lost stale : Bool) : St × Bool :=
+  match p with
+  | .refs => composeFail old old e lost
+  | .apply => composeFail old old e (lost || stale)
+  | .statusPatch => (old, false)
+
+/-- one function reconcile in which Compose may also fail at a call after the pipeline -/
+def fnReconcileF (old : St) (r : FnRec) (fault : Option (FnPoint × EC)) (stale : Bool) : St × Bool :=
+  match runPipe r.steps [] none, fault with
+  | .ok _ last, some (p, e) => if p.fires last then fnFaultOutcome old p e r.lost stale else fnReconcile old r
+  | _, _ => fnReconcile old r
+
+/-- an XR of the function composer: its conditions, and what decides whether the apply of the
+resource references changes it -/
+structure FnXR where
+  st : St
+  /-- the template names in spec.resourceRefs, as last applied -/
+  refs : List String
+  /-- those of them whose composed resource exists -/
+  live : List String
+  /-- the references were applied before (the first apply always changes the object) -/
+  applied : Bool
+  deriving Repr
+
+/-- one reconcile of the XR: ObserveComposedResources sees the live resources; the garbage
+collector deletes those the last step no longer desires; UpdateResourceRefs keeps the name of every
+observed resource and generates a fresh one for the others (so the references change unless every
+desired resource is live and every reference is desired); then the resources are applied - a
+resource whose apply is rejected exists afterwards only if it existed before. -/
+def fnWorldStep (x : FnXR) (r : FnRec) (f : Option (FnPoint × EC)) : FnXR × Bool :=
+  match runPipe r.steps [] none with
+  | .ok _ last =>
+    let des := (last.map (·.res)).getD []
+    let names := des.map (·.name)
+    let live1 := x.live.filter (names.contains ·)
+    let changed := !x.applied || !(names.all (x.live.contains ·) && x.refs.all (names.contains ·))
+    let o := fnReconcileF x.st r f changed
+    let live2 := (des.filter fun d => !d.invalid || live1.contains d.name).map (·.name)
+    match f with
+    | some (.refs, _) => ({ x with st := o.1, live := live1 }, o.2)
+    | some (.apply, _) =>
+      if des.isEmpty then ({ st := o.1, refs := names, live := live2, applied := true }, o.2)
+      else ({ st := o.1, refs := names, live := live1, applied := true }, o.2)   -- the FIRST apply fails: nothing is created
+    | _ => ({ st := o.1, refs := names, live := live2, applied := true }, o.2)
+  | _ =>
+    let o := fnReconcileF x.st r f false
+    ({ x with st := o.1 }, o.2)
+
 /-- a sequence of reconciles by the long-lived composer and reconciler: per reconcile the addressed
 XR's stored state afterwards and whether the final status write took effect -/
-def fnTrace : List St → List (Nat × FnRec) → List (Option St × Bool)
+def fnTrace : List FnXR → List (Nat × FnRec × Option (FnPoint × EC)) → List (Option St × Bool)
   | _, [] => []
-  | sts, (x, r) :: rs =>
-    match sts[x]? with
-    | none => (none, false) :: fnTrace sts rs
-    | some old =>
-      let o := fnReconcile old r
-      (some o.1, o.2) :: fnTrace (sts.set x o.1) rs
+  | xs, (i, r, f) :: rs =>
+    match xs[i]? with
+    | none => (none, false) :: fnTrace xs rs
+    | some x =>
+      let o := fnWorldStep x r f
+      (some o.1.st, o.2) :: fnTrace (xs.set i o.1) rs
 
-/-! ### the P&T composer (composition_pt.go Compose) seen from the XR's conditions -/
+/-! #### declared call skeletons of composition_functions.go -/
+
+/-- `FunctionComposer.Compose` -/
+def skelFnCompose : List String :=
+  ["composite.ObserveComposedResources",       -- not modelled: which composed resources exist (C01); its error = an empty result + error
+   "composite.FetchConnection", "AsState",     -- not modelled: connection details (C09), the observed state (C04)
+   "client.Get",                               -- not modelled: credentials secrets (C04)
+   "pipeline.RunFunction",                     -- runPipe: s.err => .error
+   "rsp.GetDesired",                           -- runPipe: the LAST step's desired state (`some s`)
+   "rsp.GetConditions", "GetStatus", "convertTarget",   -- runPipe: acc ++ s.conds (UNSPECIFIED read as Unknown by the driver; FnCond.claim)
+   "rsp.GetResults", "convertTarget", "rs.GetSeverity", -- runPipe: s.fatal => .fatal (acc ++ s.conds); other severities are events (not modelled)
+   "d.GetResources", "FromStruct", "RenderComposedResourceMetadata", "composite.GenerateName",   -- not modelled: rendering the desired resources (C01/C04)
+   "dr.GetReady",                              -- composedOf: r.ready == some true (READY_TRUE only)
+   "d.GetComposite.GetReady", "d.GetComposite", -- fnReconcile: explicit := last.bind (·.xrReady)
+   "composite.GarbageCollectComposedResources", -- not modelled (C03)
+   "UpdateResourceRefs", "client.Patch",       -- FnPoint.refs
+   "composite.ManagedFieldsUpgrader.Upgrade",  -- not modelled: field-manager migration of observed resources
+   "client.Patch", "kerrors.IsInvalid",        -- composedOf: synced := !r.invalid; FnPoint.apply for every other class
+   "FromStruct", "d.GetComposite",             -- the desired XR status (FnStep.statusConds)
+   "removeSystemConditions",                   -- customOnly
+   "client.Status.Patch",                      -- mergeStatus; FnPoint.statusPatch
+   "d.GetComposite"]                           -- connection details of the result (C09)
+
+/-- `removeSystemConditions`: the filter of customOnly; an empty remainder deletes the field -/
+def skelRemoveSystemConditions : List String := ["xpv1.IsSystemConditionType", "delete"]
+
+/-! ### the P&T composer (composition_pt.go Compose) seen from the XR's conditions
+
+Per template: it is rendered (from-composite patches, metadata, name) or not; a rendered one is
+applied and the API server may reject the apply as invalid; one that was rendered and applied is
+OBSERVED - its to-composite patches are applied to the XR held in memory, then its readiness
+checks (ready.go, `isReady`) are run against the applied object. A check that fails to run, and
+every failing call other than a rejected apply, makes Compose return an error. -/
 
 structure PTRes where
   name : String
-  ready : Bool     -- every readiness check of the template holds
-  invalid : Bool   -- the API server rejects the apply as invalid
+  /-- RenderFromCompositePatches, RenderComposedResourceMetadata and GenerateName all succeeded -/
+  rendered : Bool
+  /-- the API server rejects the apply as invalid -/
+  invalid : Bool
+  /-- the composed resource as the apply returned it: what the readiness checks look at -/
+  obj : RObj
+  checks : List RCheck
   deriving Repr
+
+/-- the field of a condition entry a ToCompositeFieldPath patch addresses -/
+inductive CField where
+  | status | reason
+  deriving DecidableEq, Repr
+
+/-- the calls at which the harness makes the P&T Compose fail -/
+inductive PTPoint where
+  | refs      -- the Update that persists spec.resourceRefs (before anything is applied)
+  | apply     -- the FIRST apply of a composed resource (a rendered template)
+  | xrApply   -- the final Apply of the XR (after every resource was observed)
+  deriving DecidableEq, Repr
 
 structure PTRec where
   res : List PTRes
-  /-- a ToCompositeFieldPath patch whose target is status.conditions[k].status of the XR -/
-  patch : Option (Nat × String)
+  /-- a ToCompositeFieldPath patch of the FIRST template whose target is
+  status.conditions[k].status / .reason of the XR -/
+  patch : Option (Nat × CField × String)
+  fault : Option (PTPoint × EC)
   publish : Option EC
   lost : Bool
   deriving Repr
 
-/-- a rejected apply leaves the resource unsynced AND unready -/
-def ptComposed (rs : List PTRes) : List Res := rs.map fun r => ⟨r.name, !r.invalid, r.ready && !r.invalid⟩
+/-- rendered, applied and therefore observed (cds[i] != nil in the third loop) -/
+def PTRes.observed (r : PTRes) : Bool := r.rendered && !r.invalid
 
-def patchAt (cs : List Cond) (k : Nat) (s : String) : List Cond :=
+/-- an invalid answer to the first apply is a rejection of THAT resource, not a Compose error -/
+def markRejected : List PTRes → List PTRes
+  | [] => []
+  | r :: rs => if r.rendered then { r with invalid := true } :: rs else r :: markRejected rs
+
+def PTRec.effRes (r : PTRec) : List PTRes :=
+  match r.fault with
+  | some (.apply, .invalid) => markRejected r.res
+  | _ => r.res
+
+/-- Compose returns before any resource is observed (and so before any to-composite patch) -/
+def PTRec.early (r : PTRec) : Option EC :=
+  match r.fault with
+  | some (.refs, e) => some e
+  | some (.apply, e) => if e != .invalid && r.res.any (·.rendered) then some e else none
+  | _ => none
+
+/-- Compose fails at its very last call -/
+def PTRec.late (r : PTRec) : Option EC :=
+  match r.fault with
+  | some (.xrApply, e) => some e
+  | _ => none
+
+/-- the third loop of Compose: none = a readiness check could not be run (Compose error) -/
+def ptObserve : List PTRes → Option (List Res)
+  | [] => some []
+  | r :: rs =>
+    if r.observed then
+      match isReady r.obj r.checks with
+      | none => none
+      | some b => (ptObserve rs).map (⟨r.name, true, b⟩ :: ·)
+    else (ptObserve rs).map (⟨r.name, false, false⟩ :: ·)   -- not rendered / rejected: unsynced AND unready
+
+def patchAt (cs : List Cond) (k : Nat) (f : CField) (v : String) : List Cond :=
   match cs[k]? with
-  | some c => cs.set k { c with status := s }
+  | some c => cs.set k (match f with | .status => { c with status := v } | .reason => { c with reason := v })
   | none => cs
 
-/-- the patch edits the XR held in memory; only a status update of the reconciler stores it -/
+/-- the XR held in memory once the first template has been observed: the patch edits it; only a
+status update of the reconciler stores it -/
+def PTRec.patched (r : PTRec) (old : St) : St :=
+  match r.patch, r.effRes with
+  | some (k, f, v), x :: _ => if x.observed then { old with conds := patchAt old.conds k f v } else old
+  | _, _ => old
+
 def ptReconcile (old : St) (r : PTRec) : St × Bool :=
-  let patched : St := match r.patch with
-    | some (k, s) => { old with conds := patchAt old.conds k s }
-    | none => old
-  match r.publish with
-  | some .conflict => (old, false)
-  | some _ => if r.lost then (old, false) else ({ patched with conds := setCond patched.conds reconcileError }, true)
-  | none => if r.lost then (old, false) else (composeOk patched (ptComposed r.res) none [], true)
+  match r.early with
+  | some e => composeFail old old e r.lost
+  | none =>
+    let mem := r.patched old
+    match ptObserve r.effRes with
+    | none => composeFail old mem .generic r.lost
+    | some composed =>
+      match r.late with
+      | some e => composeFail old mem e r.lost
+      | none =>
+        match r.publish with
+        | some .conflict => (old, false)
+        | some _ => if r.lost then (old, false) else ({ mem with conds := setCond mem.conds reconcileError }, true)
+        | none => if r.lost then (old, false) else (composeOk mem composed none [], true)
 
 def ptTrace : List St → List (Nat × PTRec) → List (Option St × Bool)
   | _, [] => []
@@ -120,5 +298,18 @@ def ptTrace : List St → List (Nat × PTRec) → List (Option St × Bool)
     | some old =>
       let o := ptReconcile old r
       (some o.1, o.2) :: ptTrace (sts.set x o.1) rs
+
+/-- declared call skeleton of `PTComposer.Compose` -/
+def skelPTCompose : List String :=
+  ["ComposedTemplates",                        -- not modelled: patch-set inlining (C10); an error = Compose error before anything
+   "composition.AssociateTemplates",           -- not modelled: template/resource association (C01, C02)
+   "RenderFromJSON",                           -- not modelled: a base that does not parse is a Compose error (C10)
+   "RenderFromCompositePatches", "RenderComposedResourceMetadata", "composed.GenerateName",   -- PTRes.rendered (any of the three failing)
+   "xr.SetResourceReferences", "client.Update", -- PTPoint.refs
+   "client.Apply", "kerrors.IsInvalid",        -- PTRes.invalid (cds[i] = nil) / PTPoint.apply for every other class
+   "RenderToCompositePatches",                 -- PTRec.patched: patchAt on the XR in memory (a failing Required patch is not modelled)
+   "composed.FetchConnection", "composed.ExtractConnection",   -- not modelled: connection details (C09)
+   "composed.IsReady", "ReadinessChecksFromComposedTemplate",  -- ptObserve: isReady r.obj r.checks, none => Compose error
+   "client.Apply", "toXRPatchesFromTAs"]       -- PTPoint.xrApply
 
 end Xp.C05
